@@ -106,16 +106,22 @@ Proof.
     repeat apply inserted_at; auto.
 Qed.
 
-Lemma render_doc_inserted js css t : inserted [js; css] (erase_ph t) (render_doc js css t).
+Lemma subst_empty (l : list (N + kind)) : subst (fun _ => []) l = lits l.
 Proof.
-  unfold render_doc, erase_ph.
-  pose proof (subst_inserted js css (ph_tokens t)) as Hs.
-  destruct (has KCss (ph_tokens t)), (has KJs (ph_tokens t)); cbn [andb]; try exact Hs;
-    (match goal with |- context [insert_default ?a ?b ?c] => destruct (insert_default a b c) as [x|] eqn:E end; [|exact Hs]);
-    unfold insert_default in E;
-    destruct (find_loop _ _ _ _ _ _ _) as [fh lb];
-    (eapply place_m_inserted; [| |exact Hs|exact E]);
-    intros y Hy; inversion Hy; simpl; auto.
+  induction l as [|[c|k] l IH]; [reflexivity| |]; unfold subst in *; cbn [flat_map text lits app]; now rewrite IH.
+Qed.
+
+Lemma render_body_inserted ty js css t : inserted [js; css] (erase_ph t) (render_body ty js css t).
+Proof.
+  unfold render_body, erase_ph. destruct ty; cbn [is_document andb].
+  - pose proof (subst_inserted js css (ph_tokens t)) as Hs.
+    destruct (has KCss (ph_tokens t)), (has KJs (ph_tokens t)); cbn [negb orb]; try exact Hs;
+      (match goal with |- context [insert_default ?s ?a ?b ?c] => destruct (insert_default s a b c) as [x|] eqn:E end; [|exact Hs]);
+      unfold insert_default in E;
+      destruct (find_loop _ _ _ _ _ _ _) as [fh lb];
+      (eapply place_m_inserted; [| |exact Hs|exact E]);
+      intros y Hy; inversion Hy; simpl; auto.
+  - rewrite subst_empty. apply inserted_end; simpl; auto. constructor.
 Qed.
 
 Lemma other_bytes_preserved_lemma : forall c ty d out,
@@ -127,9 +133,7 @@ Proof.
   destruct (negb (forallb _ (harvest d))); [discriminate|].
   destruct (negb (forallb (part_known c) (harvest d))); [discriminate|].
   destruct (deps c ty (harvest d)) as [js css].
-  destruct ty; intro H; inversion H; subst; clear H.
-  - apply render_doc_inserted.
-  - apply inserted_end; simpl; auto. constructor.
+  intro H; inversion H; subst; clear H. apply render_body_inserted.
 Qed.
 
 (* ================================================================================================ *)
@@ -428,14 +432,16 @@ Proof.
     + intro Hw. rewrite (H4 Hw). auto.
 Qed.
 
-(* the model's default insertion = one simultaneous pass at the positions the full search finds *)
-Lemma insert_default_weave t css js (bc bj : bool) :
-  match insert_default t (if bj then Some js else None) (if bc then Some css else None) with
+(* the model's default insertion = one simultaneous pass over t at the positions the full search finds in `search` *)
+Lemma insert_default_weave search t css js (bc bj : bool) :
+  length search = length t ->
+  match insert_default search t (if bj then Some js else None) (if bc then Some css else None) with
   | Some x => x
   | None => t
-  end = let '(fh, lb) := find_ns bc bj t 0 None None in weave (ins2 fh lb css js) 0 t.
+  end = let '(fh, lb) := find_ns bc bj search 0 None None in weave (ins2 fh lb css js) 0 t.
 Proof.
-  destruct (find_ns bc bj t 0 None None) as [fh lb] eqn:E.
+  intro Hlen.
+  destruct (find_ns bc bj search 0 None None) as [fh lb] eqn:E.
   pose proof (find_ns_bounds _ _ _ _ _ _ _ _ E) as (H1 & H2 & H3 & H4).
   assert (Hp : forall p, fh = Some p -> p <= length t).
   { intros p Hp. destruct H1 as [H1|(p' & H1 & Hb)]; [congruence|]. rewrite Hp in H1. inversion H1. lia. }
@@ -451,161 +457,112 @@ Proof.
 Qed.
 
 (* ================================================================================================ *)
-(* 6. inserted blocks are opaque for the search when they are well-formed tags                        *)
+(* 6. the masked copy shows the search exactly the document's own symbols                            *)
 (* ================================================================================================ *)
-Lemma tag_okb_cons c r :
-  tag_okb (c :: r) = true ->
-  c = LT /\ last (c :: r) 0%N = GT /\ forall j, j < length (c :: r) -> match_endtag (skipn j (c :: r)) = None.
+(* a NUL symbol ends every match attempt that started before it, and starts none *)
+Lemma wtg_cut_nul a b : ws_then_gt (a ++ 0%N :: b) = ws_then_gt a.
 Proof.
-  unfold tag_okb. intro H. apply andb_true_iff in H as [H H3]. apply andb_true_iff in H as [H1 H2].
-  apply N.eqb_eq in H1. apply N.eqb_eq in H2. repeat split; auto.
-  intros j Hj. rewrite forallb_forall in H3. specialize (H3 j).
-  rewrite in_seq in H3. specialize (H3 ltac:(lia)).
-  destruct (match_endtag (skipn j (c :: r))); [discriminate|reflexivity].
+  induction a as [|c a IH]; simpl; [reflexivity|].
+  destruct (N.eqb c GT); [reflexivity|]. destruct (is_uspace c); [now rewrite IH|reflexivity].
 Qed.
 
-Lemma last_skipn (a : str) d : forall j, j < length a -> last (skipn j a) d = last a d.
+Lemma me_cut_nul a b : a <> [] -> match_endtag (a ++ 0%N :: b) = match_endtag a.
 Proof.
-  induction a as [|x a IH]; intros j Hj; [simpl in Hj; lia|].
-  destruct j as [|j]; [reflexivity|]. cbn [skipn]. simpl in Hj.
-  rewrite IH by lia. destruct a; [simpl in Hj; lia|reflexivity].
+  intro Ha. rewrite !me_unfold. unfold lit, HEADL, BODYL.
+  destruct a as [|c1 [|c2 [|c3 [|c4 [|c5 [|c6 a]]]]]]; [congruence| | | | | |];
+    cbn [app starts_with length skipn]; split_eqbs; cbn [andb]; try reflexivity;
+    now rewrite ?wtg_cut_nul.
 Qed.
 
-Lemma skipn_nonnil (a : str) j : j < length a -> skipn j a <> [].
+Lemma find_ns_nuls wc wj n rest : forall pos fh lb,
+  find_ns wc wj (repeat 0%N n ++ rest) pos fh lb = find_ns wc wj rest (pos + n) fh lb.
 Proof.
-  revert j. induction a as [|x a IH]; intros j Hj; [simpl in Hj; lia|].
-  destruct j; [discriminate|]. cbn [skipn]. apply IH. simpl in Hj. lia.
-Qed.
-
-Lemma skipn_app_lt (a b : str) j : j < length a -> skipn j (a ++ b) = skipn j a ++ b.
-Proof.
-  revert j. induction a as [|x a IH]; intros j Hj; [simpl in Hj; lia|].
-  destruct j; [reflexivity|]. cbn [skipn app]. apply IH. simpl in Hj. lia.
-Qed.
-
-Lemma find_ns_opaque wc wj a rest : forall pos fh lb,
-  (forall j, j < length a -> match_endtag (skipn j a ++ rest) = None) ->
-  find_ns wc wj (a ++ rest) pos fh lb = find_ns wc wj rest (pos + length a) fh lb.
-Proof.
-  induction a as [|x a IH]; intros pos fh lb H.
+  induction n as [|n IH]; intros pos fh lb.
   - simpl. now rewrite Nat.add_0_r.
-  - cbn [app find_ns]. pose proof (H 0 ltac:(simpl; lia)) as H0. cbn [skipn app] in H0. rewrite H0.
-    cbn [option_map upd]. rewrite IH.
-    + f_equal. simpl. lia.
-    + intros j Hj. apply (H (S j)). simpl. lia.
+  - cbn [repeat app find_ns]. rewrite me_none_hd by discriminate. cbn [option_map upd].
+    rewrite IH. f_equal. lia.
 Qed.
 
-Lemma find_ns_block wc wj r rest pos fh lb :
-  tag_okb r = true ->
-  find_ns wc wj (r ++ rest) pos fh lb = find_ns wc wj rest (pos + length r) fh lb.
-Proof.
-  intro Hok. destruct r as [|c r]; [simpl; now rewrite Nat.add_0_r|].
-  apply tag_okb_cons in Hok as (_ & Hl & Hn).
-  apply find_ns_opaque. intros j Hj.
-  rewrite me_closed.
-  - now apply Hn.
-  - now apply skipn_nonnil.
-  - now rewrite last_skipn.
-Qed.
-
-Section Opaque.
+Section Masked.
   Variable r : kind -> str.
 
-  Lemma vis_subst (l : list (N + kind)) :
-    (forall k, In (inr k) l -> tag_okb (r k) = true) ->
-    exists rest, subst r l = vis r l ++ rest /\ (rest = [] \/ exists b, rest = LT :: b).
+  Lemma vis_mask (l : list (N + kind)) :
+    exists rest, subst (mask r) l = vis r l ++ rest /\ (rest = [] \/ exists b, rest = 0%N :: b).
   Proof.
-    induction l as [|[c|k] l IH]; intro H.
+    induction l as [|[c|k] l IH].
     - exists []. split; auto.
-    - destruct IH as (rest & E & Hr); [intros k Hk; apply H; now right|].
-      exists rest. split; [|exact Hr]. cbn [subst flat_map text vis app]. f_equal. exact E.
-    - cbn [vis]. destruct (r k) as [|c x] eqn:Ek.
-      + destruct IH as (rest & E & Hr); [intros k' Hk; apply H; now right|].
-        exists rest. split; [|exact Hr]. unfold subst. cbn [flat_map text]. rewrite Ek. exact E.
-      + pose proof (H k (or_introl eq_refl)) as Hok. rewrite Ek in Hok.
-        apply tag_okb_cons in Hok as (Hc & _). subst c.
-        exists (LT :: x ++ subst r l). split; [|right; eauto].
-        unfold subst. cbn [flat_map text]. now rewrite Ek.
+    - destruct IH as (rest & E & Hr). exists rest. split; [|exact Hr].
+      cbn [subst flat_map text vis app]. f_equal. exact E.
+    - cbn [vis]. unfold subst. cbn [flat_map text]. unfold mask at 1. destruct (r k) as [|c x].
+      + destruct IH as (rest & E & Hr). exists rest. split; [exact E|exact Hr].
+      + cbn [length repeat app]. eexists. split; [reflexivity|]. right. eauto.
   Qed.
 
-  (* searching the substituted text = searching the original symbols of the token list *)
-  Lemma find_ns_s_find wc wj (l : list (N + kind)) : forall pos fh lb,
-    (forall k, In (inr k) l -> tag_okb (r k) = true) ->
-    find_ns wc wj (subst r l) pos fh lb = s_find r wc wj l pos fh lb.
+  (* searching the masked copy = searching the original symbols of the token list *)
+  Lemma find_ns_mask wc wj (l : list (N + kind)) : forall pos fh lb,
+    find_ns wc wj (subst (mask r) l) pos fh lb = s_find r wc wj l pos fh lb.
   Proof.
-    induction l as [|[c|k] l IH]; intros pos fh lb H; [reflexivity| |].
-    - assert (Hl : forall k, In (inr k) l -> tag_okb (r k) = true) by (intros k Hk; apply H; now right).
-      change (subst r (inl c :: l)) with (c :: subst r l).
+    induction l as [|[c|k] l IH]; intros pos fh lb; [reflexivity| |].
+    - change (subst (mask r) (inl c :: l)) with (c :: subst (mask r) l).
       cbn [find_ns s_find tag_here vis text length].
-      assert (E : match_endtag (c :: subst r l) = match_endtag (c :: vis r l)).
-      { destruct (vis_subst l Hl) as (rest & E & [Hr|(b & Hr)]); rewrite E; subst rest.
+      assert (E : match_endtag (c :: subst (mask r) l) = match_endtag (c :: vis r l)).
+      { destruct (vis_mask l) as (rest & E & [Hr|(b & Hr)]); rewrite E; subst rest.
         - now rewrite app_nil_r.
-        - change (c :: vis r l ++ LT :: b) with ((c :: vis r l) ++ LT :: b). apply me_cut_lt. discriminate. }
+        - change (c :: vis r l ++ 0%N :: b) with ((c :: vis r l) ++ 0%N :: b). apply me_cut_nul. discriminate. }
       rewrite E. destruct (upd wc wj _ pos fh lb) as [fh' lb'].
-      rewrite Nat.add_1_r. now apply IH.
-    - assert (Hl : forall k, In (inr k) l -> tag_okb (r k) = true) by (intros k' Hk; apply H; now right).
-      change (subst r (inr k :: l)) with (r k ++ subst r l).
-      cbn [s_find tag_here upd text].
-      rewrite find_ns_block by (apply H; now left). now apply IH.
+      rewrite Nat.add_1_r. apply IH.
+    - change (subst (mask r) (inr k :: l)) with (mask r k ++ subst (mask r) l).
+      cbn [s_find tag_here upd text]. unfold mask at 1. rewrite find_ns_nuls. apply IH.
   Qed.
-End Opaque.
 
-Lemma has_in k (l : list (N + kind)) : In (inr k) l -> has k l = true.
-Proof.
-  intro H. unfold has. apply existsb_exists. exists (inr k). split; [exact H|]. destruct k; reflexivity.
-Qed.
+  (* "search_content has the same length as html_content" *)
+  Lemma mask_length (l : list (N + kind)) : length (subst (mask r) l) = length (subst r l).
+  Proof.
+    induction l as [|[c|k] l IH]; [reflexivity| |]; unfold subst in *; cbn [flat_map text]; rewrite !app_length, IH.
+    - reflexivity.
+    - unfold mask. now rewrite repeat_length.
+  Qed.
+End Masked.
 
 (* ================================================================================================ *)
-(* 7. M = S under the guard                                                                          *)
+(* 7. M = S, position form: for ALL texts and ALL generated JS / CSS                                 *)
 (* ================================================================================================ *)
-Lemma render_doc_eq_spec js css t :
-  (forall k, has k (ph_tokens t) = true -> tag_okb (repl js css k) = true) ->
-  render_doc js css t = spec_doc js css t.
+Lemma render_doc_eq_spec_pos : forall js css t, render_doc js css t = spec_doc js css t.
 Proof.
-  intro G. unfold render_doc, spec_doc.
-  set (l := ph_tokens t) in *. set (r := repl js css).
-  assert (Gl : forall k, In (inr k) l -> tag_okb (r k) = true) by (intros k Hk; apply G; now apply has_in).
-  rewrite <- (find_ns_s_find r _ _ l 0 None None Gl).
-  pose proof (insert_default_weave (subst r l) css js (negb (has KCss l)) (negb (has KJs l))) as W.
-  destruct (has KCss l) eqn:Ec, (has KJs l) eqn:Ej; cbn [negb andb] in *.
-  - (* both kinds have placeholders: nothing else is inserted *)
-    cbn [insert_default] in W. exact W.
+  intros js css t. unfold render_doc, render_body, spec_doc. cbn [is_document andb].
+  set (l := ph_tokens t). set (r := repl js css).
+  rewrite <- (find_ns_mask r _ _ l 0 None None).
+  pose proof (insert_default_weave (subst (mask r) l) (subst r l) css js
+                (negb (has KCss l)) (negb (has KJs l)) (mask_length r l)) as W.
+  destruct (has KCss l) eqn:Ec, (has KJs l) eqn:Ej; cbn [negb andb orb] in *.
+  - cbn [insert_default] in W. exact W.
   - exact W.
   - exact W.
   - exact W.
 Qed.
 
-Lemma render_eq_spec_lemma : forall c ty d,
-  (forall k, has k (ph_tokens (erase_markers d)) = true ->
-             tag_okb (repl (fst (deps c ty (harvest d))) (snd (deps c ty (harvest d))) k) = true) ->
-  render c ty d = spec_render c ty d.
-Proof.
-  intros c ty d G. unfold render, spec_render.
-  destruct (negb (forallb _ (harvest d))); [reflexivity|].
-  destruct (negb (forallb (part_known c) (harvest d))); [reflexivity|].
-  destruct (deps c ty (harvest d)) as [js css]. cbn [fst snd] in G.
-  destruct ty; [|reflexivity]. f_equal. now apply render_doc_eq_spec.
-Qed.
+(*ONEPASS*)
 
 (* ================================================================================================ *)
-(* 8. witnesses                                                                                      *)
+(* 8. witnesses: the theorems are sensitive to exactly the two repaired defects                      *)
 (* ================================================================================================ *)
 Import Coq.Strings.String.StringSyntax.
 Local Delimit Scope string_scope with string.
 Local Arguments s2n s%string.
 
-(* JS at its placeholder, no CSS placeholder, and the JS text holds "</head>": the search runs over the
-   substituted text and puts the CSS inside the inserted JS instead of before the document's </head>. *)
+(* JS at its placeholder, no CSS placeholder, and the JS text holds "</head>": the code before b234f8a searched the
+   substituted text and put the CSS inside the inserted JS; the current code puts it before the document's </head>. *)
 Definition wit_js : str := s2n "<script>var h='</head>';</script>".
 Definition wit_css : str := s2n "<style>.a{}</style>".
 Definition wit_doc : str := s2n "<head><script name=""JS_PLACEHOLDER""></script></head><body></body>".
 
-Lemma render_eq_spec_refuted_lemma :
-  exists c d, render c Document d <> spec_render c Document d
-              /\ render c Document d = ROk (s2n "<head><script>var h='<style>.a{}</style></head>';</script></head><body></body>")
-              /\ spec_render c Document d = ROk (s2n "<head><script>var h='</head>';</script><style>.a{}</style></head><body></body>").
+Lemma unmasked_search_refuted_lemma :
+  exists js css t,
+    render_doc_unmasked js css t <> spec_doc1 js css t
+    /\ render_doc_unmasked js css t = s2n "<head><script>var h='<style>.a{}</style></head>';</script></head><body></body>"
+    /\ render_doc js css t = s2n "<head><script>var h='</head>';</script><style>.a{}</style></head><body></body>".
 Proof.
-  exists (const_cfg [] wit_js wit_css), wit_doc.
+  exists wit_js, wit_css, wit_doc.
   split; [|split]; [intro H; vm_compute in H; discriminate H | vm_compute; reflexivity | vm_compute; reflexivity].
 Qed.
 
@@ -689,13 +646,23 @@ Section Positions.
 End Positions.
 
 (* ================================================================================================ *)
-(* 10. middleware guard and type round-trip (immediate from the model)                               *)
+(* 10. middleware guard and type round-trip                                                          *)
 (* ================================================================================================ *)
-Lemma middleware_and_type_lemma : forall c,
-  (forall r, is_html r = false -> process_response c r = ROk r) /\
-  (forall ty k d k' o, render_any c ty k d = ROk (k', o) -> k' = k).
+Lemma type_preserved_lemma : forall c ty k d k' o, render_any c ty k d = ROk (k', o) -> k' = k.
 Proof.
-  intro c. split.
-  - intros r H. unfold process_response. now rewrite H.
-  - intros ty k d k' o. unfold render_any. destruct (render c ty d); intro H; inversion H; reflexivity.
+  intros c ty k d k' o. unfold render_any. destruct (render c ty d); intro H; inversion H.
+  destruct k; reflexivity.
+Qed.
+
+Lemma middleware_passthrough_lemma : forall c r,
+  streaming r = true \/ ctype r = None \/ (exists t, ctype r = Some t /\ starts_with (s2n "text/html") t = false) ->
+  process_response c r = ROk r.
+Proof.
+  intros c r H. unfold process_response.
+  assert (E : is_html r = false).
+  { unfold is_html. destruct H as [H|[H|(t & H1 & H2)]].
+    - now rewrite H.
+    - rewrite H. now rewrite andb_false_r.
+    - rewrite H1, H2. now rewrite andb_false_r. }
+  now rewrite E.
 Qed.
